@@ -782,10 +782,15 @@ Proof.
     rewrite (replay_app a ws ws2 a1 Hr1). exact Hr2.
 Qed.
 
-(* the root-move hypothesis of a statement (only INSERT can move a root) *)
+(* the root-move hypothesis of a statement (only INSERT can move a root; an INSERT refused by
+   the check loop of EvaluateInsert stores nothing) *)
 Definition stmt_moves_ok (s : store) (st : stmt) : Prop :=
   match st with
-  | SInsert name cols rows => rows_move_ok s name cols rows
+  | SInsert name cols rows =>
+      match first_err (check_insert s name cols) rows with
+      | Ok _ => rows_move_ok s name cols rows
+      | _ => True
+      end
   | _ => True
   end.
 
@@ -798,12 +803,14 @@ Theorem redo_stmt a b st m :
   exists a', replay a (e_batch (run_stmt b st)) = RCont a' /\ Rel a' (e_store (run_stmt b st)) /\
              e_flushed (run_stmt b st) = false.
 Proof.
-  intros HR Hd Hok Hout. destruct st; try discriminate; cbn [run_stmt] in *.
-  - destruct (insert_rows b table cols rows [] 0) as [[b' B] o] eqn:E. cbn [e_out e_batch e_store e_flushed] in *. subst o.
+  intros HR Hd Hok Hout. destruct st; try discriminate; cbn [run_stmt stmt_moves_ok] in *.
+  - destruct (first_err _ rows) as [u|e0|]; try discriminate.
+    destruct (insert_rows b table cols rows [] 0) as [[b' B] o] eqn:E. cbn [e_out e_batch e_store e_flushed] in *. subst o.
     destruct (redo_insert_rows rows a b table cols [] 0%nat b' B m HR Hok E) as (ws & a' & -> & Hr & HR').
     exists a'. auto.
   - destruct (existsb _ sets); [discriminate|].
     destruct (where_ids b table where_) as [ids|e|]; try discriminate.
+    destruct (first_err _ ids) as [u|e0|]; try discriminate.
     destruct (update_rows b table _ _ ids []) as [[b' B] o] eqn:E. cbn [e_out e_batch e_store e_flushed] in *. subst o.
     destruct (redo_update_rows ids a b table _ _ [] b' B m HR E) as (ws & a' & -> & Hr & HR').
     exists a'. auto.
